@@ -36,6 +36,8 @@ type pipeConfig struct {
 	WARCWriteAsync       bool     `json:"async_warc_write"`
 	WARCDiscardStatus    []int    `json:"warc_discard_status"`
 	RateLimit            bool     `json:"rate_limit"`
+	RateCapacity         float64  `json:"rate_capacity"`
+	RateRefill           float64  `json:"rate_refill"`
 	Proxy                string   `json:"proxy"`
 	DomainsCrawl         []string `json:"domains_crawl"`
 	DisableAssetsCapture bool     `json:"disable_assets_capture"`
@@ -106,6 +108,12 @@ func (p *pipeRun) applyConfig(inputSeeds []string) error {
 			z.WARCDiscardStatus = c.WARCDiscardStatus
 		}
 		z.DisableRateLimit = !c.RateLimit
+		if c.RateCapacity > 0 {
+			z.RateLimitCapacity = c.RateCapacity
+		}
+		if c.RateRefill > 0 {
+			z.RateLimitRefillRate = c.RateRefill
+		}
 		z.Proxy = c.Proxy
 		z.DomainsCrawl = c.DomainsCrawl
 		z.DisableAssetsCapture = c.DisableAssetsCapture
